@@ -1,4 +1,4 @@
-(* C14 - executable model of OptionContext's lookup (src/program_options.cpp, after the repairs 7f13f8a, 7f60224).
+(* C14 - executable model of OptionContext's lookup (src/program_options.cpp, after the repairs 42ca538, d7a58a6).
 
    index_   : std::map<std::string, size_t>  ->  association list, strictly sorted by the bytewise unsigned
               lexicographic order of std::string (lex_ltb); lower_bound / upper_bound are modelled by a linear
